@@ -58,9 +58,16 @@ def case_strategy(draw, tier):
     big = tier == "thorough" and draw(st.integers(0, 9)) == 0
     steps = draw(st.integers(150, 2000)) if big else draw(st.integers(1, 150))
     lengths = [float(np.linalg.norm(mob[a] - mob[b])) for a, b in edges]
+    width = draw(st.sampled_from([0.1, 0.3, 1.0]))
+    if not coincident and draw(st.integers(0, 24)) == 0:
+        # a slow search: the target is 15-25 nm away and is approached by translations of 2 pm, about half of which find a
+        # new lowest measure - tens of thousands of steps, more than a thousand times the budget, before the budget of
+        # consecutive non-improving steps is ever used up
+        fixed = fixed[:3] + np.array([float(rng.uniform(15, 25)), 0.0, 0.0])
+        deform, restr, steps, width = (0,), [], draw(st.integers(13, 18)), 0.002
     return {"fixed": fixed.tolist(), "mobile": mob.tolist(), "edges": edges, "lengths": lengths,
             "restr": restr, "deform": list(deform), "steps": steps,
-            "sigma": draw(st.sampled_from([0.5, 0.2, 1.0])), "width": draw(st.sampled_from([0.1, 0.3, 1.0])),
+            "sigma": draw(st.sampled_from([0.5, 0.2, 1.0])), "width": width,
             "seed": draw(gen.SEEDS), "coincident": coincident, "chained": draw(st.integers(0, 3)) == 0,
             "mem": [draw(st.sampled_from(gen.ARRAY_LAYOUTS)),
                     draw(st.sampled_from(gen.ARRAY_LAYOUTS + (["float32", "float32"] if tuple(deform) == (0,) else [])))]}
@@ -253,7 +260,8 @@ def check(case):
     return {"nontrivial": nt,
             "classes": ["mobile:%s" % ("1" if len(mob0) == 1 else "2+"), "zero-measure-start" if case.get("coincident") else "positive-start", "deform:" + "".join(map(str, sorted(deform))), "restraints" if restr else "no-restraints",
                         "accepted-worse" if acc_worse else "no-accepted-worse",
-                        "budget:%s" % ("<=20" if budget <= 20 else "<=150" if budget <= 150 else ">150")] +
+                        "budget:%s" % ("<=20" if budget <= 20 else "<=150" if budget <= 150 else ">150"),
+                        "total-steps:%s" % ("<=1000x-budget" if nsteps <= 1000 * budget else ">1000x-budget")] +
                        ["move:" + k for k in moves],
             "sample": {"n_fixed": len(fixed), "n_mobile": len(mob0), "deform": list(deform), "budget": budget,
                        "steps": nsteps, "accepted_worse": acc_worse, "rejections": rejections,
@@ -327,7 +335,33 @@ def check_accept(case):
     return {"nontrivial": True, "classes": ["accept:worse"]}
 
 
+def slow_cases(tier, seed):
+    """Searches that take more than a thousand times their budget in total: a target 20 nm away approached by
+    translations of 2 pm.  The stop rule only counts CONSECUTIVE steps without a new lowest measure."""
+    out = []
+    for k in range(8 if tier == "thorough" else 4):
+        rng = np.random.default_rng(int(seed) * 131 + k)
+        mob = np.array([[0.0, 0.0, 0.0], [0.3, 0.0, 0.1], [0.3, 0.25, 0.0]])[: 2 + k % 2]
+        fixed = mob[[0, 1, 1]] + rng.normal(0, 0.1, (3, 3)) + np.array([26.0 + k, 0.0, 0.0])
+        edges = [[0, 1], [1, 2]][: len(mob) - 1]
+        out.append({"fixed": fixed.tolist(), "mobile": mob.tolist(), "edges": edges,
+                    "lengths": [float(np.linalg.norm(mob[a] - mob[b])) for a, b in edges], "restr": [], "deform": [0],
+                    "steps": 20 + k, "sigma": 0.5, "width": 0.002, "seed": int(seed) + k, "coincident": False,
+                    "chained": False, "mem": ["C", "C"]})
+    return out, False
+
+
+def check_slow(case):
+    info = check(case)
+    # (a run of `budget` non-improving steps may occur by chance before the target is reached - about 2 % of these
+    # cases - and is then the legitimate end of the search)
+    info["nontrivial"] = "total-steps:>1000x-budget" in info["classes"]
+    return info
+
+
 SUBCHECKS = [
+    Sub("slow", check_slow, enumerate=slow_cases, shards=4,
+        note="searches whose total length exceeds 1000 x budget (the stop rule counts consecutive steps only)"),
     Sub("trace", check, strategy=lambda tier: case_strategy(tier), quick=800, thorough=30000,
         min_share={"accepted-worse": 0.05, "move:atom-move": 0.3, "move:rotation": 0.3, "move:translation": 0.3,
                    "nontrivial": 0.03}),
